@@ -167,7 +167,8 @@ def runOps (s : St) : List String → List (String × String × String)
   | [] => []
   | op :: r =>
     let (s', m, sp, tag) := stepOp s op
-    (m, sp, tag) :: runOps s' r
+    -- a Go panic ends the sequence
+    (m, sp, tag) :: (if m = "panic" then [] else runOps s' r)
 
 def step (line : String) : String :=
   match line.splitOn "|" with
